@@ -214,6 +214,9 @@ def templates(roles, rng):
         ("after-for:variable-shadows-bound-name", ("list", [("for", [(sh, ("dom_list", L))], ("add", SH, num("1"))), N2])),
         ("after-function:parameter-shadows-bound-name", ("list", [("call", ("fundef", [sh], ("add", SH, num("1"))), [num("5")]), N2])),
         ("after-context:key-shadows-bound-name", ("list", [("path", ("ctx", [(sh, num("1")), ("other", ("add", SH, num("1")))]), "other"), N2])),
+        ("after-context:single-key-shadows-bound-name", ("list", [("path", ("ctx", [(sh, num("1"))]), sh), N2, ("add", N2, N1)])),
+        ("after-context:single-key-shadows-bound-name:in-for", ("list", [("for", [("x", ("dom_list", L))], ("path", ("ctx", [(sh, ("name", "x"))]), sh)), N2])),
+        ("after-filter:context-element-key-shadows-bound-name", ("list", [("filter", ("list", [("ctx", [(sh, num("1"))]), ("ctx", [(sh, num("2"))]), ("ctx", [(sh, num("3"))])]), ("cmp", ">", SH, num("1")), "pred"), N2])),
         ("after-nested-quantifiers:variables-shadow-bound-names", ("list", [("some", [(sh, L)], ("every", [(roles["n1"], L)], ("cmp", ">=", ("add", SH, N1), num("2")))), N2, N1])),
     ]
     if "n3" in roles:
@@ -223,6 +226,7 @@ def templates(roles, rng):
             joined = "%s%s%s" % (roles["n2"], sym, roles["n3"])
             J = ("name", joined)
             out.append(("after-some-true:variable-joins-bound-names:" + op, ("list", [("some", [(joined, L)], ("cmp", ">", J, num("0"))), (op, N2, ("name", roles["n3"]))])))
+            out.append(("after-context:single-key-joins-bound-names:" + op, ("list", [("ctx", [(joined, num("0"))]), (op, N2, ("name", roles["n3"]))])))
             out.append(("after-every-false:variable-joins-bound-names:" + op, ("list", [("every", [(joined, L)], ("cmp", ">", J, num("4"))), (op, N2, ("name", roles["n3"]))])))
     # formal parameters of an EXTERNAL function definition (a body the evaluator does not run) must not stay bound after it:
     # the joined spelling of two bound names is a parameter there, and arithmetic again afterwards
